@@ -260,8 +260,9 @@ def _plane_to_convex_hull_points(plane_point, plane_normal, points):
     max_idx = np.argmax(ts)
 
     if ts[min_idx] * ts[max_idx] < 0:  # on opposite sides, intersection
-        return _line_segment_to_plane(
+        dist, closest_point, closest_point_plane = _line_segment_to_plane(
             points[min_idx], points[max_idx], plane_point, plane_normal, 1e-6)
+        return dist, closest_point_plane, closest_point
 
     closest_idx = np.argmin(np.abs(ts))
     closest_point = points[closest_idx]
